@@ -147,6 +147,7 @@ pub proof fn lemma_run_push(ops: Seq<POp>, op: POp, s: Seq<u8>, p: nat, vals: Se
 }
 
 /// reading a cons marker: SExp at p (with s[p] == 0xff) behaves like Cons, SExp, SExp from p + 1
+#[verifier::spinoff_prover]
 pub proof fn lemma_run_cons_marker(ops: Seq<POp>, s: Seq<u8>, p: nat, vals: Seq<Tree>)
     requires
         p < s.len(),
@@ -175,4 +176,94 @@ pub proof fn lemma_run_cons_marker(ops: Seq<POp>, s: Seq<u8>, p: nat, vals: Seq<
             }
         },
     }
+}
+
+/// position-only view of the machine: where the pending operations end (a pending Cons reads nothing)
+pub open spec fn pcount(ops: Seq<POp>, s: Seq<u8>, p: nat) -> Option<nat>
+    decreases ops.len(),
+{
+    if ops.len() == 0 {
+        Some(p)
+    } else {
+        match ops.last() {
+            POp::SExp => match dec_tree(s, p) {
+                None => None,
+                Some((t, p1)) => pcount(ops.drop_last(), s, p1),
+            },
+            POp::Cons => pcount(ops.drop_last(), s, p),
+        }
+    }
+}
+
+pub proof fn lemma_pcount_push(ops: Seq<POp>, op: POp, s: Seq<u8>, p: nat)
+    ensures
+        pcount(ops.push(op), s, p) == (match op {
+            POp::SExp => match dec_tree(s, p) {
+                None => None,
+                Some((t, p1)) => pcount(ops, s, p1),
+            },
+            POp::Cons => pcount(ops, s, p),
+        }),
+{
+    assert(ops.push(op).drop_last() =~= ops);
+    assert(ops.push(op).last() == op);
+}
+
+pub proof fn lemma_pcount_cons_marker(ops: Seq<POp>, s: Seq<u8>, p: nat)
+    requires
+        p < s.len(),
+        s[p as int] == 0xff,
+    ensures
+        pcount(ops.push(POp::Cons).push(POp::SExp).push(POp::SExp), s, p + 1) == pcount(ops.push(POp::SExp), s, p),
+{
+    let o1 = ops.push(POp::Cons);
+    let o2 = o1.push(POp::SExp);
+    lemma_pcount_push(o2, POp::SExp, s, p + 1);
+    lemma_pcount_push(ops, POp::SExp, s, p);
+    lemma_dec_tree_progress(s, p + 1);
+    match dec_tree(s, p + 1) {
+        None => {},
+        Some((l, p1)) => {
+            lemma_pcount_push(o1, POp::SExp, s, p1);
+            lemma_dec_tree_progress(s, p1);
+            match dec_tree(s, p1) {
+                None => {},
+                Some((r, p2)) => {
+                    lemma_pcount_push(ops, POp::Cons, s, p2);
+                },
+            }
+        },
+    }
+}
+
+/// the discipline predicate after pushing Cons, SExp, SExp in place of a popped SExp
+pub proof fn lemma_pdisc_cons_marker(ops: Seq<POp>, n: int)
+    requires
+        n >= 0,
+    ensures
+        pdisc(ops.push(POp::Cons).push(POp::SExp).push(POp::SExp), n) == pdisc(ops.push(POp::SExp), n),
+{
+    let o1 = ops.push(POp::Cons);
+    let o2 = o1.push(POp::SExp);
+    let o3 = o2.push(POp::SExp);
+    assert(o3.drop_last() =~= o2 && o3.last() == POp::SExp);
+    assert(o2.drop_last() =~= o1 && o2.last() == POp::SExp);
+    assert(o1.drop_last() =~= ops && o1.last() == POp::Cons);
+    let q = ops.push(POp::SExp);
+    assert(q.drop_last() =~= ops && q.last() == POp::SExp);
+    assert(pdisc(o3, n) == pdisc(o2, n + 1));
+    assert(pdisc(o2, n + 1) == pdisc(o1, n + 2));
+    assert(pdisc(o1, n + 2) == (n + 2 >= 2 && pdisc(ops, n + 1)));
+    assert(pdisc(q, n) == pdisc(ops, n + 1));
+}
+
+pub proof fn lemma_pdisc_pop(ops: Seq<POp>, n: int)
+    requires
+        ops.len() > 0,
+    ensures
+        pdisc(ops, n) == (match ops.last() {
+            POp::SExp => pdisc(ops.drop_last(), n + 1),
+            POp::Cons => n >= 2 && pdisc(ops.drop_last(), n - 1),
+        }),
+{
 }
